@@ -11,13 +11,14 @@ SPEC = {
     "trusted": ["sync.Mutex/RWMutex, context cancellation, time.Ticker and the goroutine scheduler by contract",
                 "GenericStack and SafeMap methods are single atomic steps of the cache model (their own locking is C11's / C07's subject; F9 fixed)",
                 "sequentially consistent interleaving semantics: justified for schedules without Clear/Resize by the lockset theorem of Props/C08.v + DRF-SC of the Go memory model; NOT justified with Clear/Resize (known finding K1)",
-                "uint64 partition ids do not overflow"],
+                "uint64 partition ids do not overflow",
+                "the translator translator/lockskel (field mode: go/ast walk producing coq/Gen/CacheSkeleton_gen.v on every run) is trusted to report every lock operation and every access to the cache's fields; it fails closed (Unknown) on constructs it does not recognise. On top of it: C08_partial_race_free_core_generated, C08_known_races_are_clear_resize_only (K1 derived from the source), C08_footprints_match_source (the hand-written footprints agree with the source)"],
     "assumptions": ["keys have a reflexive == (no NaN-bearing keys)",
                     "values used by the harness are non-zero and unique per Set, so 'zero value' means absent",
                     "C08 is claimed PARTIALLY: the full statement is refuted by K1 (race with Clear/Resize) and K3 (duplicate key after two concurrent Sets of the same new key); see Props/C08.v C08_full_statement"],
 }
 META = {
-  "text": "PARTIAL. Coq theorems (Props/C08.v) over an interleaving model of FifoMapCache decomposed into the code's atomic sections, for EVERY schedule: no panic; every (k,v) in any partition was the argument of a Set k v (so every Get result was set for that key or is zero); after cancel the ticker goroutine can only exit (after at most one more sweep); after fix F15, Sets of pairwise distinct keys within P*C never cause an eviction and all keys are present at the end; lockset race freedom for schedules without Clear/Resize; and running calls one at a time is exactly the sequential model Model/Cache.v (projection theorems). The full statement is refuted in the same file by explicit schedules (K3 duplicate key, K1 race with Clear/Resize), which the -race stress harness classifies as known findings while reporting every other failure.",
+  "text": "PARTIAL. Coq theorems (Props/C08.v) over an interleaving model of FifoMapCache decomposed into the code's atomic sections, for EVERY schedule: no panic; every (k,v) in any partition was the argument of a Set k v (so every Get result was set for that key or is zero); after cancel the ticker goroutine can only exit (after at most one more sweep); after fix F15, Sets of pairwise distinct keys within P*C never cause an eviction and all keys are present at the end; lockset race freedom for schedules without Clear/Resize (over the hand-written footprints, which are proved to agree with the lock skeleton REGENERATED from storage/fifoMapCache.go on every run, and directly over that skeleton: C08_partial_race_free_core_generated; K1 is derived from the source: every offending pair has Clear/Resize as the unprotected writer and an unlocked reader on the other side); and running calls one at a time is exactly the sequential model Model/Cache.v (projection theorems). The full statement is refuted in the same file by explicit schedules (K3 duplicate key, K1 race with Clear/Resize), which the -race stress harness classifies as known findings while reporting every other failure.",
   "design_ref": "DESIGN.md section 7, C08",
   "note": "Trusted: Coq kernel, the hand-written concurrent model (atomicity structure validated by the stress harness and by the sequential correspondence), mutex/context/ticker contracts, GenericStack/SafeMap operations as atomic steps, DRF-SC. Known findings K1, K3 are not fixed (need a re-design of the cache's locking).",
   "technique": "Coq inductive invariants over all interleavings of an atomic-section model + vm_compute refutation witnesses + two-family -race stress with history-based classification",
